@@ -306,16 +306,98 @@ fn probe_marker_order() -> Result<(), Failure> {
         .map_err(|f| f.sig("marker:order-depends-on-type-ids"))
 }
 
+/// Regression probe (seeded change C17c): two mutually recursive paths, each in two versions; the outer
+/// types differ in a field after the recursive one, the inner types only through the outer ones. Every
+/// relative order of the four named entries, and the restrictions to the two outer / two inner types.
+fn probe_two_version_recursive_group() -> Result<(), Failure> {
+    use crate::program::*;
+    let fld = |n: &str, t: Ty| FieldDef { name: Some(n.into()), ty: t, compact_attr: false, docs: vec![] };
+    let node = |leaf: usize, tag: Prim| Def {
+        path: vec!["tree".into(), "Node".into()],
+        params: vec![],
+        docs: vec![],
+        body: Body::Struct(Fields::Named(vec![
+            fld("children", Ty::Seq(SeqKind::Vec, Box::new(Ty::Def(leaf, vec![])))),
+            fld("tag", Ty::Prim(tag)),
+        ])),
+        config_inner: None,
+    };
+    let leaf = |node: usize| Def {
+        path: vec!["tree".into(), "Leaf".into()],
+        params: vec![],
+        docs: vec![],
+        body: Body::Struct(Fields::Named(vec![
+            fld("parent", Ty::Opt(Box::new(Ty::Ptr(PtrKind::Box, Box::new(Ty::Def(node, vec![])))))),
+            fld("value", Ty::Prim(Prim::U32)),
+        ])),
+        config_inner: None,
+    };
+    let defs = vec![node(1, Prim::U8), leaf(0), node(3, Prim::U16), leaf(2)];
+    let orders: [[usize; 4]; 6] = [[0, 2, 1, 3], [0, 1, 2, 3], [1, 3, 0, 2], [2, 0, 3, 1], [3, 1, 2, 0], [1, 0, 3, 2]];
+    let spec = SettingsSpec::default();
+    for order in orders {
+        let prog = Program {
+            name_style: 0,
+            defs: defs.clone(),
+            roots: order.iter().map(|d| Ty::Def(*d, vec![])).collect(),
+        };
+        let low = crate::lower::lower(&prog);
+        let reg = &low.registry;
+        let n = reg.types.len() as u32;
+        let text = prog.to_text();
+        let named: Vec<u32> = reg.types.iter().filter(|t| t.ty.path.segments.len() >= 2).map(|t| t.id).collect();
+        // every arrangement of the named entries (they go first, the rest keeps its order)
+        let mut arr: Vec<Vec<u32>> = vec![vec![]];
+        for _ in 0..named.len() {
+            arr = arr
+                .into_iter()
+                .flat_map(|a| named.iter().filter(|x| !a.contains(x)).map(|x| { let mut b = a.clone(); b.push(*x); b }).collect::<Vec<_>>())
+                .collect();
+        }
+        for a in arr {
+            // perm[old id] = new id
+            let mut new_order: Vec<u32> = a.clone();
+            new_order.extend((0..n).filter(|i| !a.contains(i)));
+            let mut perm = vec![0u32; n as usize];
+            for (new, old) in new_order.iter().enumerate() {
+                perm[*old as usize] = new as u32;
+            }
+            let decoded = || json!({"program": text, "perm": perm});
+            let mut st = Stats::default();
+            permutation_clauses(reg, &perm, &spec, &mut st, &decoded).map_err(|f| f.sig("regress:two-version-recursive-group"))?;
+        }
+        for pick in [["Node", "Node"], ["Leaf", "Leaf"]] {
+            let roots: BTreeSet<u32> = reg
+                .types
+                .iter()
+                .filter(|t| t.ty.path.segments.last().map(|s| s == pick[0]).unwrap_or(false))
+                .map(|t| t.id)
+                .collect();
+            let decoded = || json!({"program": text, "restriction_roots": roots});
+            let mut st = Stats::default();
+            restriction_clauses(reg, &roots, &spec, true, &mut st, &decoded).map_err(|f| f.sig("regress:two-version-recursive-group"))?;
+        }
+    }
+    Ok(())
+}
+
 impl Property for C17 {
     fn id(&self) -> &'static str {
         "C17"
     }
     fn probes(&self) -> Vec<Probe> {
-        vec![Probe {
-            signature: "marker:order-depends-on-type-ids",
-            what: "enum Unused<T, U>{} instantiated with (Vec<String>, u8), registry reversed",
-            run: Box::new(probe_marker_order),
-        }]
+        vec![
+            Probe {
+                signature: "marker:order-depends-on-type-ids",
+                what: "enum Unused<T, U>{} instantiated with (Vec<String>, u8), registry reversed",
+                run: Box::new(probe_marker_order),
+            },
+            Probe {
+                signature: "regress:two-version-recursive-group",
+                what: "tree::Node{children: Vec<Leaf>, tag: u8|u16} / tree::Leaf{parent: Option<Box<Node>>, value: u32} in two versions, all arrangements of the four entries",
+                run: Box::new(probe_two_version_recursive_group),
+            },
+        ]
     }
     fn rule(&self) -> String {
         "tape -> coincidence-free program (generics with several instantiations, associated types, two versions, recursion) -> registry + plain \
